@@ -117,6 +117,7 @@ class M(Hooks):
         self.flags = set()
         self.instances = 0
         self.auto_hole = bool(cfg['autos'] >> 4 & 1)
+        self.dealt_streets = set()
 
     def v(self, kind, key, msg):
         if not self.viol:
@@ -188,6 +189,8 @@ class M(Hooks):
                                f' {"up" if before[c] else "down"} and is'
                                f' {"up" if f else "down"} after {op!r}')
                         return
+        if k in DEAL and s.street_index is not None:
+            self.dealt_streets.add(s.street_index)
         if k not in DEAL:
             self.close(s, f'{type(op).__name__}')
             if k in BETTING and self.last_done != s.street_index \
@@ -387,6 +390,23 @@ def check(case, stats):
     if res.outcome == 'done' and not out:
         m.close(res.state, 'hand over')
         out = list(m.viol)
+    s = res.state
+    if res.outcome == 'done' and not out and not s.status:
+        # a hand that is contested to the end goes through every street of
+        # the definition, however the street objects were written down
+        folds = sum(1 for o in s.operations
+                    if op_kind(o) == 'fold'
+                    or (op_kind(o) == 'show_or_muck_hole_cards'
+                        and not o.hole_cards))
+        want = set(range(len(s.streets)))
+        if folds < s.player_count - 1 and m.dealt_streets != want:
+            out.append(V(ID, 'streets_skipped', '',
+                         f'contested to the end but nothing was dealt on'
+                         f' street(s) {sorted(want - m.dealt_streets)} of'
+                         f' {len(s.streets)}; shared street objects:'
+                         f' {len(set(map(id, s.streets))) < len(s.streets)}'))
+        if len(set(map(id, s.streets))) < len(s.streets):
+            m.flags.add('street_object_used_twice')
     stats.count('street_instances', m.instances)
     for f in m.flags:
         stats.count('class:' + f)
